@@ -12,6 +12,7 @@ import (
 	"fmt"
 	"io"
 	"os"
+	"path/filepath"
 	"reflect"
 	"sort"
 	"strconv"
@@ -52,6 +53,10 @@ type SimCase struct {
 	Freq    string      `json:"freq"` // "hz": components 1 Hz, GPU/SM connections 1 GHz (as nvidia.go); "ghz": all 1 GHz
 	Kernels [][][]int64 `json:"kernels"`
 	Tag     string      `json:"tag,omitempty"`
+	// ViaFiles: the kernels are written to a trace directory (every kernel file with the SAME kernel name and
+	// launch configuration, or two alternating names; Memcpy lines in between) and loaded through
+	// benchmark.BenchmarkBuilder / tracereader instead of being injected with SetKernel
+	ViaFiles bool `json:"via_files,omitempty"`
 	// observations
 	Kids       [][]int     `json:"kids,omitempty"`
 	Events     []int       `json:"events,omitempty"` // 0 = next cycle, 2u+1 = tick of component u, 2u+2 = tick of the connection below u
@@ -187,6 +192,17 @@ func buildWorld(c *SimCase) (*world, *runner.Runner) {
 		}
 	}
 	r := new(runner.RunnerBuilder).WithPlatform(p).Build()
+	var bm *benchmark.Benchmark
+	if c.ViaFiles {
+		bm = benchmarkFromFiles(c)
+	} else {
+		bm = benchmarkInjected(c)
+	}
+	r.AddBenchmark(bm)
+	return w, r
+}
+
+func benchmarkInjected(c *SimCase) *benchmark.Benchmark {
 	bm := &benchmark.Benchmark{}
 	for _, k := range c.Kernels {
 		kern := nvidiaconfig.Kernel{}
@@ -207,8 +223,61 @@ func buildWorld(c *SimCase) (*world, *runner.Runner) {
 		exec.SetKernel(kern)
 		bm.TraceExecs = append(bm.TraceExecs, exec)
 	}
-	r.AddBenchmark(bm)
-	return w, r
+	return bm
+}
+
+// benchmarkFromFiles prints the kernels as accel-sim trace files of one
+// directory and loads them the way nvidia.go does.  All files carry the same
+// launch configuration and one of two kernel names, so that kernel instances
+// can only be told apart by their bodies.
+func benchmarkFromFiles(c *SimCase) *benchmark.Benchmark {
+	dir, err := os.MkdirTemp("", "c20simtrace")
+	if err != nil {
+		panic(err)
+	}
+	defer os.RemoveAll(dir)
+	var list strings.Builder
+	list.WriteString("MemcpyHtoD,0x00007fb0fc400000,200000\n")
+	for i, k := range c.Kernels {
+		tk := trKernel{Header: trHeader{Name: []string{"_Z6KernelP4NodePiPbS2_S2_i", "_Z7Kernel2PbS_S_S_i"}[i%2], KernelID: int64(i + 1),
+			Grid: [3]int64{int64(len(c.Kernels[0])) + 1, 1, 1}, Block: [3]int64{64, 1, 1}, Nregs: 16, BinVer: 80,
+			ShBase: 0x7fb139000000, LocalBase: 0x7fb137000000, Nvbit: "1.7", Tracer: "5"}}
+		for j, b := range k {
+			blk := trBlock{ID: [3]int64{int64(j), 0, 0}}
+			for l, n := range b {
+				wp := trWarp{ID: int64(l)}
+				for x := int64(0); x < n; x++ {
+					in := trInst{PC: uint64(16 * x), Mask: 0xffffffff, Dests: []int64{int64(1 + (x+int64(i))%30)}, Op: "IMAD", Srcs: []int64{2, 3}}
+					if (x+int64(l))%3 == 1 {
+						in = trInst{PC: uint64(16 * x), Mask: 0xffffffff, Dests: []int64{4}, Op: "LDG.E", Srcs: []int64{4},
+							Mem: &trMem{Width: 4, Mode: 1, Base: 0x7fb0fc430e00 + uint64(128*(i+j+l)), Stride: 4}}
+					}
+					wp.Insts = append(wp.Insts, in)
+				}
+				blk.Warps = append(blk.Warps, wp)
+			}
+			tk.Blocks = append(tk.Blocks, blk)
+		}
+		lines := trKernelLines(&tk)
+		var sb strings.Builder
+		for x := range lines {
+			sb.WriteString(trLineText(&lines[x]))
+			sb.WriteString("\n")
+		}
+		name := fmt.Sprintf("kernel-%d.traceg", i+1)
+		if err := os.WriteFile(filepath.Join(dir, name), []byte(sb.String()), 0o644); err != nil {
+			panic(err)
+		}
+		list.WriteString(name + "\n")
+		if i%2 == 1 {
+			list.WriteString("MemcpyDtoH,0x00007fb0fc430e00,4\nMemcpyHtoD,0x00007fb0fc430e00,4\n")
+		}
+	}
+	list.WriteString("MemcpyDtoH,0x00007fb0fc400000,200000\n")
+	if err := os.WriteFile(filepath.Join(dir, "kernelslist.g"), []byte(list.String()), 0o644); err != nil {
+		panic(err)
+	}
+	return new(benchmark.BenchmarkBuilder).WithTraceDirectory(dir).Build()
 }
 
 var fieldNames = [4][5]string{
@@ -489,6 +558,12 @@ func genCase(rng *vh.Rng, i int) *SimCase {
 	c.Freq = "hz"
 	if rng.Bool() {
 		c.Freq = "ghz"
+	}
+	if i%5 == 4 { // the kernel list of an iterative application, loaded from trace files
+		c.ViaFiles = true
+		for len(c.Kernels) < 4 {
+			c.Kernels = append(c.Kernels, genKernels(rng, degenerate, 1, 1, 3, 1, 4)...)
+		}
 	}
 	if i%11 == 5 { // many sub-cores reporting at once: fills the SM's 4-deep buffer
 		c.GPUs = []GPUShape{{SMs: 1 + rng.Intn(2), Subs: 4}}
